@@ -1,6 +1,7 @@
 """C08 — dispatch semaphores conserve permits.  Model/Sema.v (thread automaton tstep / tstep_vis + global model with the
 kernel semaphore and ghost counters), Gen_sema (atomic sites, memory orders, LONG_MIN/LONG_MAX regenerated from
 src/semaphore.c)."""
+import os
 import common
 import conc
 import driver
@@ -43,14 +44,35 @@ FOREVER = 18446744073709551615
 TOL_NS = 50000      # early-return tolerance (wall clock vs uptime clock drift, clock resolution): safe direction only
 
 
-def run_harness(ctx, seed, rounds, permille):
+class HarnessProblem(Exception):
+    """the harness could not be run to its end: kind = 'hang' (no exit within the limit, twice) or 'crash'"""
+    def __init__(self, kind, msg):
+        Exception.__init__(self, msg)
+        self.kind = kind
+
+
+def run_harness(ctx, seed, rounds, permille, timeout=600):
     exe, msg = common.build_harness("c08_sema", ["c08_sema.c"], whitebox=True, extra=["-I" + common.VERIF + "/harness"])
     if exe is None:
-        raise RuntimeError("harness build failed: " + msg)
-    r = common.run([exe, str(seed), str(rounds), str(permille)], timeout=600)
+        raise HarnessProblem("crash", "harness build failed: " + msg)
+    r = common.run([exe, str(seed), str(rounds), str(permille)], timeout=timeout)
+    if r.returncode == 124:
+        # a wall-clock limit alone is no verdict (machine load): once more, alone, with ten times the limit.  (A round whose
+        # waiters stay parked is reported by the harness itself, progress-based: line H)
+        r = common.run([exe, str(seed), str(rounds), str(permille)], timeout=10 * timeout)
+        if r.returncode == 124:
+            raise HarnessProblem("hang", "no exit within %d s (second run; the first gave up after %d s)" % (10 * timeout, timeout))
     if r.returncode != 0:
-        raise RuntimeError("harness failed rc=%s: %s" % (r.returncode, r.stderr[-1500:]))
+        raise HarnessProblem("crash", "harness failed rc=%s: %s" % (r.returncode, (r.stderr or "")[-1500:]))
     return r.stdout
+
+
+def coq_eval_twice(name, imports, body, timeout):
+    """driver.coq_eval; a run that fails (time limit under load, memory) is repeated once with ten times the limit"""
+    ok, vals, raw = driver.coq_eval(name, imports, body, timeout=timeout)
+    if not ok:
+        ok, vals, raw = driver.coq_eval(name + "_again", imports, body, timeout=10 * timeout)
+    return ok, vals, raw
 
 
 def clock_ns(t):
@@ -273,8 +295,8 @@ def global_replay(name, groups, budget=2500):
         # the replay result of every round, then the per-thread conformance result (Sema.conform) of every thread of every round
         body.append("Eval vm_compute in (map (fun '(v, ths) => SemaR.replay v ths) rounds, "
                     "map (fun '(v, ths) => map (fun '(t, tr) => let '(i, d) := Sema.conform 0 (map snd tr) in [i; d]) ths) rounds).")
-        ok, vals, raw = driver.coq_eval("%s_%d" % (name, len(out)), ["Word", "Conc", "Replay", "Gen_sema", "Sema", "SemaR"],
-                                        "\n".join(body) + "\n", timeout=900)
+        ok, vals, raw = coq_eval_twice("%s_%d" % (name, len(out)), ["Word", "Conc", "Replay", "Gen_sema", "Sema", "SemaR"],
+                                       "\n".join(body) + "\n", timeout=900)
         if not ok or len(vals) != 1:
             raise RuntimeError("coq replay evaluation failed: " + raw[-2000:])
         xs = driver.ints(vals[0])
@@ -302,8 +324,13 @@ def global_replay(name, groups, budget=2500):
 
 
 def replay_mismatches(res, groups, seed):
-    """a round that is not replayed completely, or that does not end in the library's final words, is a mismatch"""
-    mism, okc = [], 0
+    """returns (definitive mismatches, rounds for which no order of the recorded actions was found, number of rounds replayed).
+    Definitive: a thread trace the automaton rejects, or a completely replayed round that does not end in the library's final
+    words.  No order found: the order search and the scheduler are incomplete, so such a round alone is not a verdict (see
+    judge_seed)"""
+    mism, notfound, okc = [], [], 0
+    if len(res) != len(groups):
+        return [{"what": "whole-round replay: %d results for %d rounds" % (len(res), len(groups)), "detail": {"seed": seed}}], [], 0
     for r, (rd, info, grp) in zip(res, groups):
         nact = r["done"] + r["left"]
         if r["left"] != 0 or r["events_not_abstracted"] != 0:
@@ -317,15 +344,16 @@ def replay_mismatches(res, groups, seed):
                         stuck["model_kernel_semaphore_count"] = r["kernel_count"]
                     if e.kind in (5, 6, 7):
                         stuck["observed_value"], stuck["model_value"] = s64(e.a), r["value"]
-            mism.append({"what": "whole-round replay on the global model Sema.gstep: the model does not accept the recorded actions of "
-                         "the round in any order the scheduler tries (first unmatched action in detail): the implementation took a step "
-                         "the global model does not have in that state",
-                         "detail": {"seed": seed, "round": rd, "initial_value": info["v"], "first_unmatched": stuck,
-                                    "executed": r["done"], "of": nact, "state": {k: r[k] for k in REPLAY_OUT[6:]}}})
+            m = {"what": "whole-round replay on the global model Sema.gstep: the model does not accept the recorded actions of "
+                 "the round in any order the search / the scheduler tried (first unmatched action in detail): the implementation took "
+                 "a step the global model does not have in that state",
+                 "detail": {"seed": seed, "round": rd, "initial_value": info["v"], "first_unmatched": stuck,
+                            "executed": r["done"], "of": nact, "state": {k: r[k] for k in REPLAY_OUT[6:]}}}
+            (mism if r["events_not_abstracted"] != 0 else notfound).append(m)
             continue
         bad = []
         if r["inv_b"] != 1:
-            bad.append("inv_b (SemaR.inv_b, proved true on reachable states) is false")
+            bad.append("inv_b (SemaR.inv_b; true on every reachable state by theorem: the replay machinery left the model?) is false")
         if r["all_idle"] != 1:
             bad.append("a thread is still inside a call")
         if info.get("final_value") is not None and r["value"] != info["final_value"]:
@@ -340,7 +368,7 @@ def replay_mismatches(res, groups, seed):
                                                                              "state": {k: r[k] for k in REPLAY_OUT[6:]}}})
             continue
         okc += 1
-    return mism, okc
+    return mism, notfound, okc
 
 
 def shape(tr):
@@ -348,24 +376,98 @@ def shape(tr):
                  for e in tr)
 
 
-def correspond(ctx):
-    nseeds, rounds = (3, 80) if ctx.tier == "quick" else (8, 250)
-    fails, mism, rmism, alltr, total, confall = [], [], [], [], {}, {}
-    for i in range(nseeds):
-        seed = ctx.seed * 1000 + i
-        permille = [0, 150, 400][i % 3]
+def params_of(ctx, i):
+    """the i-th run of the plan: (seed, rounds, permille)"""
+    return ctx.seed * 1000 + i, (80 if ctx.tier == "quick" else 250), [0, 150, 400][i % 3]
+
+
+def judge_seed(ctx, seed, rounds, permille, tag):
+    """run the harness with these arguments and judge the recording: API oracle, per-thread conformance (Sema.conform) and
+    whole-round replay (SemaR.replay), both inside Coq.  Returns (failures, mismatches, traces, statistics); every failure /
+    mismatch carries the arguments of the run (replay() re-executes exactly them)."""
+    par = {"seed": seed, "rounds": rounds, "permille": permille}
+    label = "seed%d" % seed
+    total = {}
+
+    def stamp(d):
+        d.update(par)
+        if isinstance(d.get("detail"), dict):
+            d["detail"].update(par)
+        return d
+
+    try:
         text = run_harness(ctx, seed, rounds, permille)
-        f, tr, st, groups = analyse(text, "seed%d" % seed)
+    except HarnessProblem as e:
+        if e.kind == "hang":
+            return [stamp({"key": "%s:hang" % label, "label": label, "what": "the stress client did not terminate: " + str(e)})], [], [], total
+        return [], [stamp({"what": "the stress client could not be run to its end (nothing was judged for this run)", "detail": {"error": str(e)}})], [], total
+    fails, tr, st, groups = analyse(text, label)
+    total.update(st)
+    mism = []
+    hung = any(":lost-signal" in f.get("key", "") for f in fails)
+    if (st["rounds"] != rounds and not hung) or not tr:
+        mism.append({"what": "the recording is incomplete: %d of %d rounds reported, %d thread traces (truncated output? hook "
+                     "compiled out?)" % (st["rounds"], rounds, len(tr)), "detail": {"label": label}})
+    conf = {}
+    try:
+        rres, conf, nos = global_replay("c08_replay_%s_%d" % (tag, os.getpid()), groups)
+        rm, notfound, okc = replay_mismatches(rres, groups, seed)
+    except RuntimeError as e:
+        rres, nos, rm, notfound, okc = [], 0, [{"what": "whole-round replay and per-thread conformance could not be evaluated inside Coq "
+                                                 "(twice)", "detail": {"label": label, "error": str(e)[-1500:]}}], [], 0
+    total["replay_order_search_gave_up"] = nos
+    total["rounds_total_for_replay"] = len(groups)
+    total["replay_actions"] = sum(r["done"] for r in rres)
+    if notfound:
+        # the order search is untrusted and incomplete: a round it cannot order is counted, and the scenario is recorded and
+        # replayed once more; a mismatch only if it happens again, or for more than 2 percent of the rounds at once
+        total["rounds_without_order_first_run"] = len(notfound)
+        again = []
+        if len(notfound) <= max(1, len(groups) // 50):
+            try:
+                text2 = run_harness(ctx, seed, rounds, permille)
+                f2, _, st2, groups2 = analyse(text2, label + ":again")
+                fails += f2
+                rres2, _, _ = global_replay("c08_replay_%s_again_%d" % (tag, os.getpid()), groups2)
+                rm2, again, _ = replay_mismatches(rres2, groups2, seed)
+                rm += rm2
+                if st2["rounds"] != rounds:
+                    again = again or notfound
+            except (HarnessProblem, RuntimeError):
+                again = notfound
+        else:
+            again = notfound
+        if again:
+            rm += again[:10]
+        else:
+            total["rounds_without_order_not_confirmed_by_second_run"] = len(notfound)
+    total["rounds_replayed_on_global_model"] = okc
+    # per-thread conformance: Sema.conform of every thread trace, evaluated inside Coq together with the replay of its round
+    if rres:
+        for (sv, t, rd, thr) in tr:
+            if (rd, thr) not in conf:
+                mism.append({"what": "no conformance verdict came back for a recorded thread trace", "detail": {"round": rd, "thread": thr}})
+                continue
+            i, idle = conf[(rd, thr)]
+            if i != -1 or idle != 1:
+                lo = max(0, i - 6) if i >= 0 else max(0, len(t) - 8)
+                mism.append({"what": "a recorded thread trace of the library is not accepted by the model's thread automaton "
+                             "(Sema.tstep_vis): the implementation took a step the model does not have",
+                             "detail": {"round": rd, "thread": thr, "rejected_at": i, "ended_idle": idle,
+                                        "events_before_and_at_rejection": [e.brief() for e in t[lo:(i + 1 if i >= 0 else len(t))]]}})
+    mism = mism[:10] + rm[:10] + mism[10:] + rm[10:]      # both kinds among the ones reported
+    return [stamp(f) for f in fails], [stamp(m) for m in mism], [(sv, t, rd, thr, seed) for (sv, t, rd, thr) in tr], total
+
+
+def correspond(ctx):
+    nseeds = 3 if ctx.tier == "quick" else 8
+    fails, mism, alltr, total = [], [], [], {}
+    for i in range(nseeds):
+        seed, rounds, permille = params_of(ctx, i)
+        f, m, tr, st = judge_seed(ctx, seed, rounds, permille, "s%d" % i)
         fails += f
-        alltr += [(sv, t, rd, thr, seed) for (sv, t, rd, thr) in tr]
-        rres, conf, nos = global_replay("c08_replay_%d" % i, groups)
-        total["replay_order_search_gave_up"] = total.get("replay_order_search_gave_up", 0) + nos
-        confall.update({(seed, rd, thr): v for (rd, thr), v in conf.items()})
-        rm, okc = replay_mismatches(rres, groups, seed)
-        rmism += rm
-        total["rounds_replayed_on_global_model"] = total.get("rounds_replayed_on_global_model", 0) + okc
-        total["rounds_total_for_replay"] = total.get("rounds_total_for_replay", 0) + len(groups)
-        total["replay_actions"] = total.get("replay_actions", 0) + sum(r["done"] for r in rres)
+        mism += m
+        alltr += tr
         for k, v in st.items():
             if k == "min_timeout_margin_ns":
                 if v is not None:
@@ -376,16 +478,8 @@ def correspond(ctx):
                 total[k] = max(total.get(k, 0), v)
             else:
                 total[k] = total.get(k, 0) + v
-    # per-thread conformance: Sema.conform of every thread trace, evaluated inside Coq together with the replay of its round
-    res = [confall[(seed, rd, thr)] for (_, _, rd, thr, seed) in alltr]
-    for (i, idle), (sv, t, rd, thr, seed) in zip(res, alltr):
-        if i != -1 or idle != 1:
-            lo = max(0, i - 6) if i >= 0 else max(0, len(t) - 8)
-            mism.append({"what": "a recorded thread trace of the library is not accepted by the model's thread automaton "
-                         "(Sema.tstep_vis): the implementation took a step the model does not have",
-                         "detail": {"seed": seed, "round": rd, "thread": thr, "rejected_at": i, "ended_idle": idle,
-                                    "events_before_and_at_rejection": [e.brief() for e in t[lo:(i + 1 if i >= 0 else len(t))]]}})
-    mism = mism[:10] + rmism[:10] + mism[10:] + rmism[10:]      # both kinds among the ones reported
+    if not alltr and not mism and not fails:
+        mism.append({"what": "nothing was recorded: no thread trace in %d runs" % nseeds})
     nev = sum(len(t) for (_, t, _, _, _) in alltr)
     # distinct shapes of single calls (event kinds, CAS outcomes, sign of the value seen, timeout flag)
     shapes = set()
@@ -425,8 +519,11 @@ def correspond(ctx):
                     "replayed on the global model Sema.gstep (SemaR.replay inside Coq: an action "
                     "is taken only when the model accepts it with the value the library observed in dsema_value and, for a return "
                     "of sem_wait / a successful sem_timedwait, with a positive kernel count in the model; every action must be "
-                    "consumed), the end state must have the library's final dsema_value and sem_getvalue and satisfy the boolean "
-                    "invariant SemaR.inv_b; API-level oracle on stamps: at every prefix successes <= v + signals "
+                    "consumed), the end state must have the library's final dsema_value and sem_getvalue; a round for which no order is "
+                    "found is counted and the run is recorded once more (mismatch if it happens again or for more than 2 percent of "
+                    "the rounds); the boolean invariant SemaR.inv_b is evaluated on the END state of every round only, as a "
+                    "consistency check of the replay machinery (it is true on reachable states by theorem and the replay only takes "
+                    "model steps); API-level oracle on stamps: at every prefix successes <= v + signals "
                     "started, no non-zero return from an untimed wait, no non-zero return earlier than the deadline (library clock, "
                     "%d ns tolerance in the safe direction), and after quiescence the drain obtains exactly v + signals - successes; "
                     "distinct = distinct shapes of single calls (event kinds, CAS outcome, sign of the value seen, timeout flag)" % TOL_NS,
@@ -435,33 +532,37 @@ def correspond(ctx):
 
 
 def replay(ctx, obj):
-    """re-run the recorded seeds (same harness arguments) and judge them again with the API-level oracle"""
-    seeds = {}
+    """re-executes the recorded runs (same seed, round count and perturbation) against the current build and judges them again
+    (oracle, per-thread conformance and whole-round replay inside Coq).  1: a failure / mismatch shows again; 0: none does;
+    2: nothing could be executed for this file"""
+    runs, other = {}, []
     for f in obj.get("failures", []):
         print("recorded failure:", f.get("what"))
-        lab = f.get("label", "seed1")
-        seeds.setdefault(lab, int(lab.replace("seed", "")) if lab.startswith("seed") else 1)
+        if all(k in f for k in ("seed", "rounds", "permille")):
+            runs[(f["seed"], f["rounds"], f["permille"])] = 1
+        else:
+            other.append(f)
     for b in obj.get("broken", []):
-        print("no longer checks:", str(b)[:700])
-        d = b.get("detail", {}) if isinstance(b, dict) else {}
-        d = d.get("detail", {}) if isinstance(d, dict) else {}
-        if isinstance(d, dict) and "seed" in d:
-            seeds.setdefault("seed%d" % d["seed"], d["seed"])
+        d = b.get("detail") if isinstance(b, dict) else None
+        print("recorded as no longer checking:", str(b)[:600])
+        if isinstance(d, dict) and all(k in d for k in ("seed", "rounds", "permille")):
+            runs[(d["seed"], d["rounds"], d["permille"])] = 1
+        else:
+            other.append(b)
     again = 0
-    ok, out = common.coq_make(["Model/Sema.vo"])
-    if not ok:
-        print("model does not build:", out[-800:])
+    for n, (seed, rounds, permille) in enumerate(sorted(runs)):
+        f2, m2, tr, _ = judge_seed(ctx, seed, rounds, permille, "r%d" % n)
+        print("re-run seed %d, %d rounds, perturbation %d/1000: %d oracle failures, %d mismatches (%d thread traces judged)" %
+              (seed, rounds, permille, len(f2), len(m2), len(tr)))
+        for x in (f2 + m2)[:6]:
+            print("  ", x["what"][:300], str(x.get("detail", ""))[:300])
+        again += len(f2) + len(m2)
+    for x in other:
+        print("not re-executable from this file (a proof, a tie or a crash of the check itself): only a full ./check C08 "
+              "re-establishes it:", str(x)[:400])
+    if again:
         return 1
-    for lab, seed in sorted(seeds.items()):
-        quick = seed % 1000 < 3
-        text = run_harness(ctx, seed, 80 if quick else 250, [0, 150, 400][(seed % 1000) % 3])
-        f2, tr, _, _ = analyse(text, lab)
-        res = conc.coq_conform("c08_replay", ["Word", "Conc", "Gen_sema", "Sema"], "conform", [(sv, t) for (sv, t, _, _) in tr],
-                               chunk=300)
-        bad = sum(1 for (i, idle) in res if i != -1 or idle != 1)
-        again += len(f2) + bad
-        print("re-run with seed %d: %d oracle failures, %d of %d thread traces rejected by Sema.tstep_vis" %
-              (seed, len(f2), bad, len(tr)))
-        for x in f2[:5]:
-            print("  ", x["what"])
-    return 1 if again or not seeds else 0
+    if runs:
+        print("does not reproduce")
+        return 0
+    return 2
